@@ -41,6 +41,11 @@ def R(x, depth=0):
     """Canonical, implementation-independent rendering."""
     if depth > 6:
         return '...'
+    try:
+        isinstance(x, int)
+    except Marker:
+        # an object whose __class__ cannot be read (isinstance looks at it)
+        return 'obj:%s' % type(x).__dict__.get('zname', '?')
     if x is None or isinstance(x, (bool, int, float)):
         return repr(x)
     if isinstance(x, str):
@@ -150,7 +155,23 @@ class Program:
             self.objs.append(o)
         self.odd = self.make_odd()
         flav = rng_.choice([AdapterRegistry, VerifyingAdapterRegistry])
-        self.regs = [flav()]
+        prog = self
+        self.gen_fault = False
+        self.final = []
+
+        class TopRegistry(flav):
+            # a registry whose generation is computed (persistent registries load their state on access) and can fail
+            @property
+            def _generation(self_):
+                if prog.gen_fault:
+                    prog.gen_fault = False
+                    raise Marker('generation')
+                return self_.__dict__.get('_g', 0)
+
+            @_generation.setter
+            def _generation(self_, v):
+                self_.__dict__['_g'] = v
+        self.regs = [TopRegistry()]
         self.regs.append(flav((self.regs[0],)))
         self.regs.append(flav((self.regs[1],)) if rng_.random() < 0.5 else flav())
         self.vals = []
@@ -172,6 +193,15 @@ class Program:
         out.append(base)
         out.append(type(base)('ICd', (base,), {'__module__': mod}))
         out.append(type(base)('ICo', (base,), {'__module__': mod, INTERFACE_METHODS: {'other': other}}))
+
+        class AdaptingInterfaceClass(InterfaceClass):
+            # a user's own kind of interface (no interfacemethod involved)
+            def __adapt__(self_, obj):
+                if getattr(obj, 'zname', '') == 'o0':
+                    return 'adapted-by-the-interface-kind'
+                return InterfaceClass.__adapt__(self_, obj)
+        out.append(AdaptingInterfaceClass('ICk', (Interface,), {}, __module__=mod))
+        out.append(AdaptingInterfaceClass('ICkd', (out[-1],), {}, __module__=mod))
         return out
 
     def make_odd(self):
@@ -259,10 +289,48 @@ class Program:
             @property
             def __conform__(self):
                 raise Marker('get conform')
+        class ClassRaises:
+            zname = 'classraises'
+
+            @property
+            def __class__(self):
+                raise Marker('class')
+
+        class ExtendsRaises:
+            @property
+            def extends(self):
+                raise Marker('extends')
+
+        class ProvidedByOddExtends:
+            # what __providedBy__ hands out is asked for its ``extends`` to tell a specification from anything else
+            zname = 'providedbyoddextends'
+            __providedBy__ = ExtendsRaises()
+
+        class NonSpecThenProvidesRaises:
+            zname = 'nonspecthenprovidesraises'
+            __providedBy__ = 'not a spec'
+
+            @property
+            def __provides__(self):
+                raise Marker('provides after non-spec')
+
+        class MetaProvidesRaises(type):
+            @property
+            def __provides__(cls):
+                raise Marker('class provides')
+
+        class NonSpecThenClassProvidesRaises(metaclass=MetaProvidesRaises):
+            zname = 'nonspecthenclassprovidesraises'
+            __providedBy__ = 'not a spec'
+
+            def __init__(self):
+                self.__dict__['__provides__'] = Declaration(I[0])
         for c in (ProvNone, ProvNonSpec, ProvRaisesAttr, ProvRaisesOther, ProvidedByRaises, ProvidedByAttrErr,
-                  ProvidedByNonSpec, ClassLies, ConformNone, ConformValue, ConformRaises, ConformTypeError, ConformGetRaises):
+                  ProvidedByNonSpec, ClassLies, ConformNone, ConformValue, ConformRaises, ConformTypeError, ConformGetRaises,
+                  ClassRaises, ProvidedByOddExtends, NonSpecThenProvidesRaises):
             classImplements(c, rng.choice(I))
             odd.append(c())
+        odd.append(NonSpecThenClassProvidesRaises())
         # the classes themselves are adaptable objects too (unbound __conform__)
         odd.append(ConformValue)
         odd.append(ProvNone)
@@ -437,6 +505,8 @@ class Program:
             self.emit('list(%s)' % R(D), lambda: list(D))
         elif k == 'eqhash':
             self.emit('hash(%s) stable' % R(S), lambda: hash(S) == hash(S))
+            if isinstance(S, InterfaceClass):
+                self.emit('hash(%s) is the hash of its key' % R(S), lambda: hash(S) == hash((S.__name__, S.__module__)))
         elif k == 'spb':
             # any specification (not only interfaces) asked whether an object provides it
             o = self.obj()
@@ -620,9 +690,18 @@ class Program:
         prov = self.iface() if rng.random() < 0.93 else self.weird()
         name = self.name()
         k = rng.choice(['register', 'register', 'register', 'unregister', 'subscribe', 'subscribe', 'unsubscribe',
-                        'registered', 'all', 'rebase', 'rebuild', 'regnone', 'subscribed'])
+                        'registered', 'all', 'rebase', 'rebuild', 'regnone', 'subscribed', 'genfault'])
         d = 'r%d.%s(%s,%s,%s)' % (ri, k, R(req), R(prov), R(name))
-        if k == 'register':
+        if k == 'genfault':
+            # the next read of the top registry's generation fails - during a registration below it, or during a lookup
+            v = self.newval()
+            self.gen_fault = True
+            if rng.random() < 0.6 and ri > 0:
+                self.emit(d, lambda: reg.register(req, prov if isinstance(prov, InterfaceClass) else self.iface(), '', v))
+            else:
+                self.emit(d + '[lookup]', lambda: reg.lookup(req, prov, ''))
+            self.gen_fault = False
+        elif k == 'register':
             v = self.newval()
             self.emit(d, lambda: reg.register(req, prov, name, v))
         elif k == 'regnone':
@@ -743,8 +822,14 @@ class Program:
         rng = self.rng
         o = rng.choice(self.odd)
         I = self.iface()
-        k = rng.choice(['pb', 'ipb', 'adapt', 'qa', 'dp', 'ib', 'getspec'])
-        if k == 'pb':
+        k = rng.choice(['pb', 'ipb', 'adapt', 'qa', 'dp', 'ib', 'getspec', 'descr'])
+        if k == 'descr':
+            # the descriptor protocol allows the owner to be omitted
+            from zope.interface.declarations import objectSpecificationDescriptor as osd
+            o2 = rng.choice(self.objs)
+            self.emit('osd.__get__(%s)' % R(o2), lambda: R(osd.__get__(o2)))
+            self.emit('osd.__get__(%s,cls)' % R(o2), lambda: list(osd.__get__(o2, type(o2)).flattened()))
+        elif k == 'pb':
             self.emit('providedBy(%s)' % R(o), lambda: list(providedBy(o).flattened()))
         elif k == 'ipb':
             self.emit('%s.providedBy(%s)' % (R(I), R(o)), lambda: bool(I.providedBy(o)))
@@ -859,7 +944,17 @@ class Program:
             return getattr(ob, 'zname', '') == 'o0'
         ICp = InterfaceClass('ICp', (Interface,), {INTERFACE_METHODS: {'providedBy': providedBy}}, __module__=self.mod)
         o0 = self.objs[0]
+        n0 = len(self.trace)
         self.emit('ICp(o0, alt) [custom providedBy]', lambda: ICp(o0, 'ALT') is o0)
+        # calling by keyword what the C implementation defines as positional-only
+        K0, I0 = self.classes[0], self.ifaces[0]
+        self.emit('providedBy(ob=o0) [keyword call]', lambda: list(providedBy(ob=o0).flattened()))
+        self.emit('implementedBy(cls=K0) [keyword call]', lambda: list(implementedBy(cls=K0).flattened()))
+        self.emit('I0.isOrExtends(interface=I0) [keyword call]', lambda: I0.isOrExtends(interface=I0))
+        self.emit('I0.providedBy(ob=o0) [keyword call]', lambda: bool(I0.providedBy(ob=o0)))
+        self.emit('Declaration(I0)(interface=I0) [keyword call]', lambda: bool(Declaration(I0)(interface=I0)))
+        self.final = self.trace[n0:]
+        del self.trace[n0:]
 
     def finish(self):
         zi.adapter_hooks[:] = self.saved_hooks
@@ -890,7 +985,8 @@ def run_case(ctx, rng, job):
     for t in p.trace:
         h.update(t.encode('utf8', 'surrogatepass'))
         chain.append(h.hexdigest()[:10])
-    ctx.extra.setdefault('programs', {})[tag] = {'chain': chain, 'trace': p.trace if job.get('keep_traces', True) else None}
+    ctx.extra.setdefault('programs', {})[tag] = {'chain': chain, 'trace': p.trace if job.get('keep_traces', True) else None,
+                                                 'final': p.final}
     ctx.shape(('program', tag), nontrivial=exc > 0)
     if ctx.case < 1 and job['shard'] == 0:
         ctx.sample({'mode': ctx.mode, 'first_steps': p.trace[:25]})
